@@ -107,6 +107,40 @@ def cont_text(syn, kind, args):
     return ('%%(try)[x%%(except%s)[y%%(try)]' % a) if syn == 'epfs' else '<dtml-try>x\n<dtml-except%s>y</dtml-try>' % a
 
 
+CHAINS = {
+    'if': ('a', ['elif b', 'elif a', 'else', 'else a', 'else b', 'else a ', 'elif expr="b"', 'else "a"']),
+    'in': ('s', ['else', 'else s', 'else t', 'else name=s']),
+    'try': ('', ['except', 'except KeyError', 'except A B', 'else', 'finally', 'else x']),
+    'with': ('o', ['else', 'else o']),
+}
+
+
+def chain_cases(tier, rng):
+    """a block followed by every chain of up to three continuation tags (with and without arguments that repeat the
+    opening tag's or an earlier continuation's arguments), in the three spellings, one tag per line"""
+    out = []
+    for tag, (arg, conts) in CHAINS.items():
+        chains = [c for k in range(0, 4) for c in itertools.product(conts, repeat=k)]
+        for j, ch in enumerate(chains):
+            for style in (0, 1, 2):
+                if style == 1 and j % 2:
+                    continue
+                def t(name_args, kind):
+                    name, _, a = name_args.partition(' ')
+                    a = (' ' + a) if a else ''
+                    if style == 2:
+                        return '%%(%s%s)%s' % (name, a, ']' if kind == 'close' else '[')
+                    if style == 1:
+                        return ('<!--#/%s-->' % name) if kind == 'close' else '<!--#%s%s-->' % (name, a)
+                    return ('</dtml-%s>' % name) if kind == 'close' else '<dtml-%s%s>' % (name, a)
+                parts = [t((tag + ' ' + arg).strip(), 'open'), 'x']
+                for c in ch:
+                    parts += [t(c, 'cont'), 'y']
+                parts.append(t(tag, 'close'))
+                out.append({'syn': 'epfs' if style == 2 else 'html', 'src': 'top\n' + '\n'.join(parts) + '\nend', 'fam': 'chains', 'canon': True})
+    return out
+
+
 def attr_cases(tier, rng):
     out = []
     full = 2 if tier == 'quick' else 3
@@ -329,7 +363,7 @@ def depth_clause(V, tier):
 def main(tier):
     V = common.Verdicts(PID, tier)
     rng = random.Random(common.seed())
-    cases = seq_cases(tier, rng) + attr_cases(tier, rng) + mutation_cases(tier, rng) + soup_cases(tier, rng)
+    cases = seq_cases(tier, rng) + chain_cases(tier, rng) + attr_cases(tier, rng) + mutation_cases(tier, rng) + soup_cases(tier, rng)
     seen, uniq = set(), []
     for c in cases:
         k = (c['syn'], c['src'])
